@@ -1,4 +1,5 @@
 import Grexv.Lemmas.RepInv
+import Grexv.Lemmas.ExactR
 import Grexv.Lemmas.EndToEnd
 
 /-
@@ -91,7 +92,7 @@ theorem convertRepetitions_lit (cfg : Config) (hmr : 1 ≤ cfg.minRep) (ss : Lis
     exact lit_ofStr as hne hok hchr
   | some res =>
     simp only [Option.getD_some]
-    exact convertRepsAux_inv cfg hmr _ ss res hv hlen hc
+    exact fun g hg => ⟨(convertRepsAux_inv cfg hmr _ ss res hv hlen hc g hg).1, (convertRepsAux_inv cfg hmr _ ss res hv hlen hc g hg).2.1⟩
 
 /-- the minimised automaton of `-r` with what the later stages need, for clusters of printable, consistent graphemes -/
 theorem min_struct_lit (cfg : Config) (cls : List Cluster) (hcounts : ∀ cl ∈ cls, ∀ g ∈ cl, g.min = g.max)
@@ -233,5 +234,51 @@ theorem rep_end_to_end (cfg : Config) (hp : RepPrint cfg) (env : Env) (ws : List
   rw [hflat] at hsp
   rw [fmtRegExp_repPrint cfg hp]
   exact printed_soundR cfg.cap cfg.esc st.finalAst hwfs ls t hls hsp
+
+/-- **the language of the `-r` pattern, exactly** (settings of `RepPrint`; at least one non-empty test case): the compiled pattern matches
+a string of scalar values in full iff the minimised automaton has an accepting path whose labels spell it — every label `{m,n}` contributing
+its characters `k` times, `m ≤ k ≤ n` -/
+theorem rep_exact (cfg : Config) (hp : RepPrint cfg) (env : Env) (ws : List Str) (st : Stages)
+    (h : regExpFrom cfg env ws = .ok st) (hseg : ∀ w ∈ ws, SegOK env w)
+    (hlen : ∀ w ∈ ws, (clusterOfPieces (env.segOf w)).length ≤ 1000) (hne : ∃ t ∈ ws, t ≠ [])
+    (s : Str) (hs : ∀ c ∈ s, Scalar c) :
+    ∃ P, Spec.parse (fmtRegExp cfg st.finalAst) = some (⟨false, false⟩, P) ∧
+      (Spec.fullMatch false P s = true ↔ ∃ ls, st.minimized.LangFrom st.minimized.init ls ∧ Dfa.Spells ls s) := by
+  have hwfs := rep_final_wfs cfg hp env ws st h hseg hlen
+  obtain ⟨hsorted, _, _, _, hfirst⟩ := from_stages_shape cfg env ws st h
+  have hfinal := from_final_anchored cfg env ws st h (by simp [hp.noStart])
+  simp only [hp.ci, Bool.false_eq_true, ite_false] at hsorted
+  have hmem : ∀ w ∈ st.sorted, w ∈ ws := fun w hw => by rw [hsorted] at hw; exact (sortCases_mem' ws w).mp hw
+  have hsegp : ∀ w ∈ st.sorted, ∀ p ∈ env.segOf w, p ≠ [] := fun w hw p hpp => ((hseg w (hmem w hw)).1 p hpp).1
+  obtain ⟨_, hlang, hcar⟩ := rep_first_candidate cfg env ws st h hp.rep hsegp
+  -- `b[0]` is an expression: some non-empty test case is carried
+  obtain ⟨t, ht, htne⟩ := hne
+  have hts : t ∈ st.sorted := by rw [hsorted]; exact (sortCases_mem' ws t).mpr ht
+  have hpc : clusterOfPieces (env.segOf t) ∈ preClusters cfg env st.sorted := by
+    rw [preClusters_noflags cfg hp]
+    exact List.mem_map_of_mem hts
+  obtain ⟨_, hexp, _, _⟩ := rep_pipeline_sound cfg env ws st h hp.rep hsegp _ hpc
+  have hflat : (expandAll (convertRepetitions cfg (clusterOfPieces (env.segOf t)))).flatten = t := by
+    rw [hexp, clusterOfPieces_eq, subPieces_flatten_values, (subPieces_ok (env.segOf t) (hseg t ht).1).2]
+    exact (hseg t ht).2
+  have hcne : convertRepetitions cfg (clusterOfPieces (env.segOf t)) ≠ [] := by
+    intro hnil
+    rw [hnil] at hflat
+    exact htne (by simpa [expandAll] using hflat.symm)
+  obtain ⟨w0, hw0, _⟩ := hcar _ hpc hcne
+  have hlangE : ∀ ls, st.finalAst.lang ls ↔ st.minimized.LangFrom st.minimized.init ls := by
+    intro ls
+    rw [hfinal, hfirst, ofDfa_eq, ← hlang ls]
+    cases hb : ((List.range st.minimized.nodes).reverse.foldl (elimStep cfg) (elimInit cfg st.minimized st.minimized.dfs)).b.get 0 with
+    | none => rw [hb] at hw0; exact absurd hw0 (by simp [olang])
+    | some e => simp [olang]
+  rw [fmtRegExp_repPrint cfg hp]
+  obtain ⟨P, hP, hm⟩ := printed_exactR cfg.cap cfg.esc st.finalAst hwfs s hs
+  refine ⟨P, hP, ?_⟩
+  rw [hm]
+  simp only [Expr.strLangR]
+  constructor
+  · rintro ⟨ls, h1, h2⟩; exact ⟨ls, (hlangE ls).mp h1, h2⟩
+  · rintro ⟨ls, h1, h2⟩; exact ⟨ls, (hlangE ls).mpr h1, h2⟩
 
 end Grexv
